@@ -13,7 +13,7 @@
 #include <mujoco/mujoco.h>
 #include <mujoco/mjxmacro.h>
 
-struct C32Diff { std::string field; long idx; long n; double a, b; long count; };
+struct C32Diff { std::string field; long idx; long n; double a, b; long count; double maxs; };  // maxs: max |a-b|/max(1,|a|,|b|) over the array (inf for NaN mismatch)
 
 struct C32Cmp {
   int mode = 0; double rtol = 0, atol = 0;
@@ -30,12 +30,18 @@ struct C32Cmp {
     return false;
   }
   template <class T> void arr(const char* name, const T* a, const T* b, long n) {
-    long cnt = 0, first = -1;
-    if (!a || !b) { if (n > 0 && (a != nullptr) != (b != nullptr)) diffs.push_back({name, -1, n, 0, 0, 1}); return; }
-    for (long i = 0; i < n; i++) if (!same(a[i], b[i])) { if (first < 0) first = i; cnt++; }
-    if (cnt) diffs.push_back({name, first, n, (double)a[first], (double)b[first], cnt});
+    long cnt = 0, first = -1; double maxs = 0;
+    if (!a || !b) { if (n > 0 && (a != nullptr) != (b != nullptr)) diffs.push_back({name, -1, n, 0, 0, 1, INFINITY}); return; }
+    for (long i = 0; i < n; i++) if (!same(a[i], b[i])) {
+      if (first < 0) first = i;
+      cnt++;
+      double x = (double)a[i], y = (double)b[i];
+      double sc = std::fabs(x - y) / std::fmax(1.0, std::fmax(std::fabs(x), std::fabs(y)));
+      if (!(sc <= maxs)) maxs = std::isnan(sc) ? INFINITY : sc;
+    }
+    if (cnt) diffs.push_back({name, first, n, (double)a[first], (double)b[first], cnt, maxs});
   }
-  void size(const char* name, long long a, long long b) { if (a != b) diffs.push_back({name, 0, 1, (double)a, (double)b, 1}); }
+  void size(const char* name, long long a, long long b) { if (a != b) diffs.push_back({name, 0, 1, (double)a, (double)b, 1, INFINITY}); }
 };
 
 // Components that the compiler copies from the spec but that have no meaning for the element and are
